@@ -47,6 +47,8 @@ func ruleMailboxTransform(c *Ctx, rule string) {
 		{"INBOX", "INBOX"}, {"inbox", "INBOX in lower case"}, {"Archive", "printable ASCII"}, {"Sent Items", "printable ASCII with space"},
 		{"R&D", "ASCII with '&'"}, {"&", "lone '&'"}, {"&AOk-", "looks like an encoded name"}, {"a\x01b", "control character"}, {"a\x7fb", "DEL"},
 		{"café", "2-byte code point"}, {"日本", "3-byte code points"}, {"x\U0001F600", "4-byte code point"}, {"~", "0x7e"},
+		// U+0131 upper-cases to 'I' but does not fold to it: not INBOX
+		{"\u0131nbox", "dotless i (upper-cases to INBOX, is not INBOX)"},
 	}
 	for _, q8 := range []bool{false, true} {
 		for _, r := range reps {
